@@ -4,10 +4,11 @@
 setup: coq runner harness
 coq:
 	cd coq && coq_makefile -f _CoqProject -o Makefile.coq && timeout 3000 $(MAKE) -f Makefile.coq -j16
+	cd coq && timeout 1200 coqc -Q float KCF float/TickerFloat.v
 runner: coq
 	cd runner && ./build.sh
 harness:
 	cd harness && ./build.sh
 clean:
-	cd coq && (test -f Makefile.coq && $(MAKE) -f Makefile.coq clean || true) && rm -f Makefile.coq Makefile.coq.conf
+	cd coq && (test -f Makefile.coq && $(MAKE) -f Makefile.coq clean || true) && rm -f Makefile.coq Makefile.coq.conf float/*.vo float/*.glob float/.*.aux
 	rm -rf work replays harness/bin runner/kmodel runner/model.ml runner/model.mli
